@@ -625,6 +625,31 @@ func (c *Ctx) structuredArgs(e RegEntry) (pos map[string]bool) {
 		}
 		return true
 	})
+	// an argument used as a FORMALS list: passed as the formals of <env>.Lambda(formals, body),
+	// or placed right after a `lambda` head in a form the implementation builds
+	ast.Inspect(body, func(n ast.Node) bool {
+		switch x := n.(type) {
+		case *ast.CallExpr:
+			if se, ok := ast.Unparen(x.Fun).(*ast.SelectorExpr); ok && se.Sel.Name == "Lambda" && len(x.Args) == 2 {
+				if lab, ok := argIndex(x.Args[0]); ok {
+					pos[lab] = true
+				}
+			}
+		case *ast.CompositeLit:
+			for i := 0; i+1 < len(x.Elts); i++ {
+				ce, ok := ast.Unparen(x.Elts[i]).(*ast.CallExpr)
+				if !ok || len(ce.Args) != 1 {
+					continue
+				}
+				if sv, ok := constStringVal(info, ce.Args[0]); ok && (sv == "lambda" || strings.HasSuffix(sv, ":lambda")) {
+					if lab, ok := argIndex(x.Elts[i+1]); ok {
+						pos[lab] = true
+					}
+				}
+			}
+		}
+		return true
+	})
 	return
 }
 
@@ -1528,5 +1553,195 @@ func init() {
 				}
 			}
 			return []Obligation{mkOb(c, rid, u, "lookup order", bareNode, Proved, "the package test and the package-qualified lookups precede the bare-name lookup on every turn", true)}
+		}})
+}
+
+// ARITY.heads-normalised — C19: `lisp:let`, `lisp:quote`, `lisp:lambda`,
+// `lisp:if` ARE let, quote, lambda and if.  builtin-arity checks a call under
+// its `lisp:` spelling (ARITY.qualified-heads), so every piece of syntax
+// knowledge the arity checks rest on — which forms bind, which positions are
+// syntax, what is quoted data, which names the file defines — must recognise
+// the qualified spelling as well, or (lisp:let ((cons 1)) cons) is reported as
+// a wrong-arity call of cons and (lisp:if c a) is not reported at all.
+func init() {
+	register(&Rule{ID: "ARITY.heads-normalised", Floor: 4,
+		Doc: "in lint's arity machinery (aritySkipNodes and the functions it calls, definedFunctionNames, and the three arity analyzers) every dispatch on a head symbol against names of core operators — a `switch` with string cases, or an index into bindingForms — takes the head from a helper that strips the language-package qualifier, or lists the qualified spelling next to each bare one",
+		Run: func(c *Ctx) []Obligation {
+			const rid = "ARITY.heads-normalised"
+			p := c.Pkg("lint")
+			if p == nil {
+				return []Obligation{anchorMissing(rid, "lint")}
+			}
+			info := p.TypesInfo
+			core := map[string]bool{}
+			for _, e := range c.Registry() {
+				if rel(e.Pkg.PkgPath) == "lisp" {
+					core[e.Name] = true
+				}
+			}
+			bf := p.Types.Scope().Lookup("bindingForms")
+			// normalising helpers: lint functions that strip "lisp:"
+			norm := map[*types.Func]bool{}
+			decls := map[*types.Func]*ast.FuncDecl{}
+			for _, u := range c.Funcs(func(pp string) bool { return rel(pp) == "lint" }) {
+				if u.Decl == nil || u.Decl.Body == nil {
+					continue
+				}
+				decls[u.Obj] = u.Decl
+				for _, ce := range callsIn(u.Decl.Body, false) {
+					if (stdFuncCalled(info, ce, "strings", "CutPrefix") || stdFuncCalled(info, ce, "strings", "TrimPrefix")) && len(ce.Args) == 2 {
+						if tv, ok := info.Types[ce.Args[1]]; ok && tv.Value != nil && tv.Value.ExactString() == `"lisp:"` {
+							norm[u.Obj] = true
+						}
+					}
+				}
+			}
+			// scope: reachable from aritySkipNodes, plus definedFunctionNames, plus analyzer literals
+			scope := map[*ast.BlockStmt]string{}
+			var addReach func(f *types.Func, depth int)
+			addReach = func(f *types.Func, depth int) {
+				d := decls[f]
+				if d == nil || depth > 4 {
+					return
+				}
+				if _, seen := scope[d.Body]; seen {
+					return
+				}
+				scope[d.Body] = "lint." + f.Name()
+				for _, ce := range callsIn(d.Body, true) {
+					if g := originOf(Callee(info, ce)); g != nil && decls[g] != nil && !norm[g] {
+						addReach(g, depth+1)
+					}
+				}
+			}
+			for _, nm := range []string{"lint.aritySkipNodes", "lint.definedFunctionNames"} {
+				if f := c.LookupPkgFunc(nm); f != nil {
+					addReach(f, 0)
+				}
+			}
+			for _, f := range p.Syntax {
+				ast.Inspect(f, func(n ast.Node) bool {
+					vs, ok := n.(*ast.ValueSpec)
+					if !ok || len(vs.Names) != 1 {
+						return true
+					}
+					switch vs.Names[0].Name {
+					case "AnalyzerBuiltinArity", "AnalyzerIfArity", "AnalyzerUserArity":
+						ast.Inspect(vs, func(m ast.Node) bool {
+							if kv, ok := m.(*ast.KeyValueExpr); ok {
+								if id, ok := kv.Key.(*ast.Ident); ok && id.Name == "Run" {
+									if lit, ok := kv.Value.(*ast.FuncLit); ok {
+										scope[lit.Body] = "lint." + vs.Names[0].Name
+									}
+								}
+							}
+							return true
+						})
+					}
+					return true
+				})
+			}
+			fromNorm := func(body *ast.BlockStmt, e ast.Expr) bool {
+				e = ast.Unparen(e)
+				if ce, ok := e.(*ast.CallExpr); ok {
+					return norm[originOf(Callee(info, ce))]
+				}
+				o := identObj(info, e)
+				if o == nil {
+					return false
+				}
+				ok := false
+				n := 0
+				ast.Inspect(body, func(m ast.Node) bool {
+					if as, isAs := m.(*ast.AssignStmt); isAs && len(as.Lhs) == len(as.Rhs) {
+						for i, l := range as.Lhs {
+							if identObj(info, l) == o {
+								n++
+								if ce, isCall := ast.Unparen(as.Rhs[i]).(*ast.CallExpr); isCall && norm[originOf(Callee(info, ce))] {
+									ok = true
+								}
+							}
+						}
+					}
+					return true
+				})
+				return ok && n == 1
+			}
+			var obs []Obligation
+			names := make([]string, 0)
+			byName := map[string]*ast.BlockStmt{}
+			for b, nm := range scope {
+				names = append(names, nm)
+				byName[nm] = b
+			}
+			sort.Strings(names)
+			for _, nm := range names {
+				body := byName[nm]
+				ord := &ordinal{}
+				ast.Inspect(body, func(n ast.Node) bool {
+					if fl, ok := n.(*ast.FuncLit); ok && fl.Body != body {
+						if _, own := scope[fl.Body]; own {
+							return false
+						}
+					}
+					var tag ast.Expr
+					var cases []string
+					var at ast.Node
+					switch x := n.(type) {
+					case *ast.SwitchStmt:
+						if x.Tag == nil {
+							return true
+						}
+						for _, st := range x.Body.List {
+							for _, e := range st.(*ast.CaseClause).List {
+								if s, ok := constStringVal(info, e); ok {
+									cases = append(cases, s)
+								}
+							}
+						}
+						tag, at = x.Tag, x
+					case *ast.IndexExpr:
+						if bf != nil && identObj(info, x.X) == bf {
+							tag, at = x.Index, x
+							cases = []string{"let"}
+						}
+					}
+					if tag == nil {
+						return true
+					}
+					nCore := 0
+					for _, s := range cases {
+						if core[s] {
+							nCore++
+						}
+					}
+					if nCore == 0 {
+						return true
+					}
+					construct := ord.next("dispatch on " + types.ExprString(tag))
+					o := Obligation{Rule: rid, Func: nm, Construct: construct, Pos: c.Pos(at.Pos()), Nontrivial: true}
+					qualifiedToo := true
+					has := map[string]bool{}
+					for _, s := range cases {
+						has[s] = true
+					}
+					for _, s := range cases {
+						if core[s] && !has["lisp:"+s] {
+							qualifiedToo = false
+						}
+					}
+					switch {
+					case fromNorm(body, tag):
+						o.Verdict, o.Detail = Proved, "the head is normalised (language-package qualifier stripped) before the dispatch"
+					case qualifiedToo:
+						o.Verdict, o.Detail = Proved, "the qualified spelling is listed next to each bare core name"
+					default:
+						o.Verdict, o.Detail = Violated, "core operator names are matched against the head as written: the `lisp:`-qualified spelling of the same operator is not recognised here, so e.g. (lisp:let ((cons 1)) cons) has its binding entry checked as a call of cons, (lisp:quote ((cons))) has quoted data checked as calls, and (lisp:if c a) escapes if-arity"
+					}
+					obs = append(obs, o)
+					return true
+				})
+			}
+			return obs
 		}})
 }
